@@ -1,6 +1,8 @@
 (* Props/C13.v — property C13: writer combinators are transparent. *)
 From CV Require Import Model.Base Model.Events Model.Combinators Proofs.BaseP Proofs.CombinatorsP.
 
+(* [definitional] unfolds the model's own definition: a pinned reading of the model (it breaks when the model is edited),
+   not evidence for the property by itself — the model is tied to the code by the correspondence check *)
 Theorem C13_fail_on_skipped_exact :
   forall sf e,
     fos_ev sf e =
@@ -58,9 +60,13 @@ Theorem C13_discard_stats_transparent :
   forall tags_of q es sq, run_from tags_of (PDiscardStats q) (SOne sq) es = run_from tags_of q sq es.
 Proof. exact run_discard_stats. Qed.
 
+(* [definitional] unfolds the model's own definition: a pinned reading of the model (it breaks when the model is edited),
+   not evidence for the property by itself — the model is tied to the code by the correspondence check *)
 Theorem C13_stats_tee_max : forall l r, stats (PTee l r) = cmap2 N.max (stats l) (stats r).
 Proof. exact stats_tee. Qed.
 
+(* [definitional] unfolds the model's own definition: a pinned reading of the model (it breaks when the model is edited),
+   not evidence for the property by itself — the model is tied to the code by the correspondence check *)
 Theorem C13_stats_or_sum : forall m l r, stats (POr m l r) = cmap2 N.add (stats l) (stats r).
 Proof. exact stats_or. Qed.
 
@@ -72,6 +78,8 @@ Theorem C13_verdict_or :
   forall m l r, exec_failed (POr m l r) = (has_failed (stats l) || has_failed (stats r))%bool.
 Proof. exact failed_or. Qed.
 
+(* [definitional] unfolds the model's own definition: a pinned reading of the model (it breaks when the model is edited),
+   not evidence for the property by itself — the model is tied to the code by the correspondence check *)
 Theorem C13_write_tee_both :
   forall l r a b, write_to l = Some a -> write_to r = Some b -> write_to (PTee l r) = Some (a ++ b).
 Proof. exact write_tee. Qed.
